@@ -61,7 +61,13 @@ THEOREMS = [
     "Pyribs.C17.nonvacuous",
     "Pyribs.C17.nonvacuous_history",
 ]
-RULE = ("four strata. `combinations`: for every ranker, every batch of size 1..3 (thorough: 1..4) over a pool of "
+RULE = ("six strata. `large-batches`: every ranker at batch sizes 64, 100, 127, 128, 200, 255, 256, 300 (quick: the "
+        "single-stage ones at 64, 128, 300), the two-stage rankers with the status given as int8 / uint8 / int16 / "
+        "uint16 / int32 / int64 arrays and as a plain list, all three statuses and many values with ties. "
+        "`long-resets`: more than 512 resets of ONE rd / 2rd ranker object (directly, with the archive argument of "
+        "reset switched between archives of other ranges / measure_dim, interleaved rank calls; or ~300 restarts "
+        "through a real emitter with restart_rule=1): every direction is the next replayed draw times the ranges "
+        "and no draw may ever be re-used (also checked for unseeded rankers). `combinations`: for every ranker, every batch of size 1..3 (thorough: 1..4) over a pool of "
         "row symbols = every status in {0,1,2} x every value of a small pool (negative, zero, positive), so every "
         "status/value combination with ties is enumerated, measure rows chosen so that different rows project "
         "equally. `batches`: random batches of size 1..12 (0 rarely) for all eight rankers, values drawn from small "
@@ -152,9 +158,20 @@ atexit.register(_close_driver)
 # helpers
 
 
+_COPRIME = getattr(Fraction, "_from_coprime_ints", None)
+
+
 def fr(x):
     """exact rational value of a finite float / numpy scalar"""
+    if _COPRIME is not None:
+        return _COPRIME(*float(x).as_integer_ratio())  # as_integer_ratio is in lowest terms
     return Fraction(float(x))
+
+
+def qs(x):
+    """wire form (`n` or `n/d`) of the exact value of a finite float / numpy scalar"""
+    n, d = float(x).as_integer_ratio()
+    return str(n) if d == 1 else f"{n}/{d}"
 
 
 def finite(a):
@@ -302,6 +319,9 @@ class Run:
         self.d = len(case["ranges"])
         grow(self.archive, case.get("prefill") or [], self.d, case["sol_dim"])
         self.bounds_at_reset = []  # bounds in force at each replayed reset (coverage)
+        self.seen_draws = {}  # unscaled direction -> number of the reset that produced it
+        self.n_resets = 0
+        self.alts = {}  # further archives a reset may be pointed at (reset takes the archive as an argument)
         cls = getattr(rk, CLS[self.kind])
         seedkind = case["seedkind"]
         self.replay = None if seedkind == "none" else np.random.default_rng(replay_seed(case))
@@ -357,40 +377,50 @@ class Run:
             return Failure("corr", f"{where}: direction impl={a.tolist()} model={[float(x) for x in b]}")
         return None
 
-    def after_reset(self, where, before):
-        """oracle + correspondence for a reset that the implementation has just executed"""
+    def after_reset(self, where, before, archive=None):
+        """oracle + correspondence for a reset (against `archive`) that the implementation has just executed"""
         if self.kind not in DIR:
             self.drv.ask(f"reset z={ql([0] * self.d)} lo={ql([0] * self.d)} hi={ql([1] * self.d)}")
             return self.compare_dir(where)
         after = self.impl_dir()
         # the archive's measure ranges AT THIS MOMENT (sliding / proximity archives move their bounds)
-        lb, ub = bounds_of(self.archive)
+        lb, ub = bounds_of(self.archive if archive is None else archive)
+        d = len(lb)
         rng_f = ub - lb  # the float subtraction the documented formula performs
         lo = [fr(x) for x in lb]
         hi = [fr(x) for x in ub]
         if [h - l for l, h in zip(lo, hi)] != [fr(x) for x in rng_f]:
             # upper - lower is itself rounded (non-dyadic bounds): hand the model the rounded ranges
             STATS["range-subtraction-rounded"] += 1
-            lo, hi = [Fraction(0)] * self.d, [fr(x) for x in rng_f]
-        if after is None or after.shape != (self.d,) or not finite(after):
-            return Failure("oracle", f"{where}: direction after reset is {after}, expected shape ({self.d},)")
+            lo, hi = [Fraction(0)] * d, [fr(x) for x in rng_f]
+        if after is None or after.shape != (d,) or not finite(after):
+            return Failure("oracle", f"{where}: direction after reset is {after}, expected shape ({d},)")
         if before is not None and np.array_equal(before, after) and any(h != l for l, h in zip(lo, hi)):
             return Failure("oracle", f"{where}: reset did not draw a new direction ({after.tolist()})")
+        if all(h != l for l, h in zip(lo, hi)):
+            # "on reset it draws a new one": a continuous draw never comes back (also checked when unseeded);
+            # the unscaled vector is compared so that moving ranges cannot hide a re-used draw
+            unscaled = tuple(float(fr(x) / (h - l)) for x, l, h in zip(after, lo, hi))
+            if unscaled in self.seen_draws:
+                return Failure("oracle", f"{where}: reset #{self.n_resets + 1} re-used the draw of reset "
+                               f"#{self.seen_draws[unscaled]} (direction {after.tolist()})")
+            self.seen_draws[unscaled] = self.n_resets + 1
+        self.n_resets += 1
         if self.replay is None:
             # unseeded: nothing to replay; synchronise the model with the drawn direction
-            self.drv.ask(f"setdir d={ql(fr(x) for x in after)}")
+            self.drv.ask(f"setdir d={ql(qs(x) for x in after)}")
             return None
-        z = self.replay.standard_normal(self.d)
+        z = self.replay.standard_normal(d)
         want = [float(fr(zj) * (h - l)) for zj, l, h in zip(z, lo, hi)]
         if after.tolist() != want:
-            return Failure("oracle", f"{where}: direction {after.tolist()} != standard_normal({self.d}) * "
+            return Failure("oracle", f"{where}: direction {after.tolist()} != standard_normal({d}) * "
                            f"(upper_bounds - lower_bounds) = {want} replayed from the seed (z={z.tolist()}, "
                            f"current lower_bounds={lb.tolist()}, upper_bounds={ub.tolist()})")
         key = (lb.tolist(), ub.tolist())
         if self.bounds_at_reset and self.bounds_at_reset[-1] != key:
             STATS["resets-after-the-bounds-moved"] += 1
         self.bounds_at_reset.append(key)
-        self.drv.ask(f"reset z={ql(fr(x) for x in z)} lo={ql(lo)} hi={ql(hi)}")
+        self.drv.ask(f"reset z={ql(qs(x) for x in z)} lo={ql(lo)} hi={ql(hi)}")
         m = self.model_dir()
         if m is None or [float(x) for x in m] != after.tolist():
             return Failure("corr", f"{where}: model direction {m} does not round to {after.tolist()}")
@@ -398,8 +428,32 @@ class Run:
         if m != [fr(x) for x in after]:
             # z * range was rounded by the float multiplication: continue from the rounded value
             STATS["resets-rounded-then-synchronised"] += 1
-            self.drv.ask(f"setdir d={ql(fr(x) for x in after)}")
+            self.drv.ask(f"setdir d={ql(qs(x) for x in after)}")
         return None
+
+    def alt_archive(self, k):
+        """the k-th alternative archive of the case (GridArchive with its own ranges / measure_dim)"""
+        from ribs.archives import GridArchive
+        if k not in self.alts:
+            spec = self.case["alts"][k]
+            self.alts[k] = GridArchive(solution_dim=self.case["sol_dim"], dims=[2] * len(spec),
+                                       ranges=[tuple(r) for r in spec])
+        return self.alts[k]
+
+    def do_reset(self, where, op):
+        target = self.archive
+        if op.get("alt") is not None and self.kind in DIR and op["alt"] < len(self.case.get("alts") or []):
+            target = self.alt_archive(op["alt"])
+        if self.kind in DIR and bounds_of(target) is None:
+            # empty ProximityArchive: it has no bounds yet (only reachable in shrunk cases)
+            STATS["resets-skipped-empty-archive"] += 1
+            return None
+        before = self.impl_dir()
+        if op.get("kw"):
+            self.ranker.reset(emitter=self.emitter, archive=target)
+        else:
+            self.ranker.reset(self.emitter, target)
+        return self.after_reset(where, before, target)
 
     # ---- rank ------------------------------------------------------------
 
@@ -463,13 +517,13 @@ class Run:
             keys = [((st[i] if kind in TWO else 0), base[i]) for i in range(len(base))]
 
         # -- model
-        nov = ql(fr(x) for x in add_info["novelty"]) if "novelty" in add_info else "none"
-        den = ql(fr(x) for x in dens) if has_density and dens is not None else "none"
-        meas_s = ";".join(ql(fr(x) for x in row) for row in np.asarray(data["measures"])) or "-"
+        nov = ql(qs(x) for x in add_info["novelty"]) if "novelty" in add_info else "none"
+        den = ql(qs(x) for x in dens) if has_density and dens is not None else "none"
+        meas_s = ";".join(ql(qs(x) for x in row) for row in np.asarray(data["measures"])) or "-"
         resp = kvs(self.drv.ask(
-            f"rank obj={ql(fr(x) for x in data['objective'])} meas={meas_s} "
+            f"rank obj={ql(qs(x) for x in data['objective'])} meas={meas_s} "
             f"st={nl(add_info['status']) if 'status' in add_info else '-'} "
-            f"val={ql(fr(x) for x in add_info['value']) if 'value' in add_info else '-'} nov={nov} dens={den}"))
+            f"val={ql(qs(x) for x in add_info['value']) if 'value' in add_info else '-'} nov={nov} dens={den}"))
 
         # -- oracle
         if expect_err is not None:
@@ -583,6 +637,52 @@ def run_case(case):
             os.replace(path + ".tmp", path)
 
 
+def cycle(run, case, op, where):
+    """one evaluated batch with REAL add feedback: (ask) / archive.add / rank, and for a full batch of an
+    emitter-driven case also tell() -- which may restart the emitter and thereby reset the ranker"""
+    kind = case["kind"]
+    archive = run.archive
+    adt = case["adt"]
+    rows = op["rows"]
+    n = len(rows)
+    full = op["op"] in ("gen", "gens") and n == run.emitter.batch_size
+    if n == 0:
+        return None
+    sols = run.emitter.ask() if full else np.zeros((n, case["sol_dim"]), dtype=adt)
+    obj = np.array([r[OBJ] for r in rows], dtype=adt)
+    meas = np.array([r[MEAS] for r in rows], dtype=adt).reshape(n, -1)
+    info = archive.add(sols, obj, meas)
+    data = {"solution": np.asarray(sols), "objective": obj, "measures": meas}
+    has_density = case["archive"] == "density"
+    dens = None
+    if has_density:
+        archive.table = None
+        archive.as_list = False
+        dens = archive.compute_density(meas)
+    f = run.rank(where, data, info, dens=dens, has_density=has_density)
+    if isinstance(f, Failure):
+        return f
+    if full and case["via"] == "emitter":
+        before = run.impl_dir()
+        restarts = run.emitter.restarts
+        try:
+            run.emitter.tell(sols, obj, meas, info)
+        except Exception:  # pylint: disable=broad-except
+            # the optimizer's update is not this property's business (C10 / C18)
+            STATS["tell-raised"] += 1
+            return "stop"
+        after = run.impl_dir()
+        if run.emitter.restarts != restarts:
+            # the emitter restarted: exactly one reset, against the archive's bounds as they are now
+            STATS["restarts-inside-tell"] += 1
+            return run.after_reset(where + " (restart inside tell)", before)
+        if kind in DIR and not np.array_equal(before, after):
+            return Failure("oracle", f"{where}: the direction moved in tell() without a restart "
+                           f"({before} -> {after})")
+        return run.compare_dir(where + " (after tell)")
+    return None
+
+
 def _run_case(case):
     run = Run(case)
     kind = case["kind"]
@@ -602,24 +702,21 @@ def _run_case(case):
         name = op["op"]
         where = f"op#{step} {name}"
         if name == "reset":
-            if kind in DIR and bounds_of(archive) is None:
-                # empty ProximityArchive: it has no bounds yet (only reachable in shrunk cases)
-                STATS["resets-skipped-empty-archive"] += 1
-                continue
-            before = run.impl_dir()
-            if op.get("kw"):
-                run.ranker.reset(emitter=run.emitter, archive=archive)
-            else:
-                run.ranker.reset(run.emitter, archive)
-            f = run.after_reset(where, before)
+            f = run.do_reset(where, op)
             if f:
                 return f
+        elif name == "resets":
+            # `count` resets in a row of ONE ranker object (one op, so that shrinking stays cheap)
+            for k in range(op["count"]):
+                f = run.do_reset(f"{where} ({k + 1} of {op['count']})", op)
+                if f:
+                    return f
         elif name == "setdir":
             if kind not in DIR:
                 continue
             v = np.array(op["d"], dtype=op.get("dt", "float64"))
             run.ranker.target_measure_dir = v
-            run.drv.ask(f"setdir d={ql(fr(x) for x in v)}")
+            run.drv.ask(f"setdir d={ql(qs(x) for x in v)}")
             f = run.compare_dir(where)
             if f:
                 return f
@@ -650,49 +747,14 @@ def _run_case(case):
             f = run.rank(where, data, info, dens=dens, has_density=has_density, kw=bool(op.get("kw")))
             if isinstance(f, Failure):
                 return f
-        elif name in ("addrank", "gen"):
-            rows = op["rows"]
-            n = len(rows)
-            full = name == "gen" and n == run.emitter.batch_size
-            if n == 0:
-                continue
-            sols = run.emitter.ask() if full else np.zeros((n, sol_dim), dtype=adt)
-            obj = np.array([r[OBJ] for r in rows], dtype=adt)
-            meas = np.array([r[MEAS] for r in rows], dtype=adt).reshape(n, -1)
-            info = archive.add(sols, obj, meas)
-            data = {"solution": np.asarray(sols), "objective": obj, "measures": meas}
-            has_density = case["archive"] == "density"
-            dens = None
-            if has_density:
-                archive.table = None
-                archive.as_list = False
-                dens = archive.compute_density(meas)
-            f = run.rank(where, data, info, dens=dens, has_density=has_density)
-            if isinstance(f, Failure):
-                return f
-            if full and case["via"] == "emitter":
-                before = run.impl_dir()
-                restarts = run.emitter.restarts
-                try:
-                    run.emitter.tell(sols, obj, meas, info)
-                except Exception:  # pylint: disable=broad-except
-                    # the optimizer's update is not this property's business (C10 / C18)
-                    STATS["tell-raised"] += 1
-                    break
-                after = run.impl_dir()
-                if run.emitter.restarts != restarts:
-                    # the emitter restarted: exactly one reset, against the archive's bounds as they are now
-                    STATS["restarts-inside-tell"] += 1
-                    f = run.after_reset(where + " (restart inside tell)", before)
-                    if f:
-                        return f
-                else:
-                    if kind in DIR and not np.array_equal(before, after):
-                        return Failure("oracle", f"{where}: the direction moved in tell() without a restart "
-                                       f"({before} -> {after})")
-                    f = run.compare_dir(where + " (after tell)")
-                    if f:
-                        return f
+        elif name in ("addrank", "gen", "gens"):
+            for rep_k in range(op.get("count", 1) if name == "gens" else 1):
+                w = f"op#{step} gens ({rep_k + 1} of {op['count']})" if name == "gens" else where
+                f = cycle(run, case, op, w)
+                if isinstance(f, Failure):
+                    return f
+                if f == "stop":
+                    return None
     return None
 
 
@@ -1002,6 +1064,89 @@ def gen_emitter(rng, adts=tuple(FLOAT_DTYPES)):
     return case
 
 
+# large batches ------------------------------------------------------------------
+
+LARGE_SIZES = [64, 100, 127, 128, 200, 255, 256, 300]
+LARGE_STATUS_FORMS = ["int8", "uint8", "int16", "uint16", "int32", "int64", "list"]
+
+
+def large_cases(seed, quick=False):
+    """every ranker x every large batch size; for the two-stage rankers every status form (narrow and wide
+    integer dtypes, plain lists): 'integer status arrays of any integer dtype', 'every batch size'"""
+    import random
+    for kind in KINDS:
+        for n in LARGE_SIZES:
+            if quick and kind not in TWO and n not in (64, 128, 300):
+                continue  # the status dtype cannot matter for a single-stage ranker
+            rng = random.Random(f"{seed}/{kind}/{n}")
+            d = 2
+            ops = []
+            if kind in DIR:
+                ops.append({"op": "setdir", "d": dyadic_dir(rng, d), "dt": "float64"})
+            for form in (LARGE_STATUS_FORMS if kind in TWO else [rng.choice(LARGE_STATUS_FORMS)]):
+                rows = gen_rows(rng, n, d, kind not in DIR and rng.random() < 0.5, False)
+                pool = [rng.choice(DYADIC) * rng.choice([1.0, 4.0, 0.125]) + rng.choice([0.0, 8.0, -8.0])
+                        for _ in range(rng.choice([3, 10, 40, 400]))]
+                for r in rows:
+                    # all three statuses, many distinct values (and ties) inside each status
+                    r[ST] = rng.choice([0, 1, 2])
+                    r[VAL], r[OBJ] = rng.choice(pool), rng.choice(pool)
+                    r[NOV], r[DEN] = abs(rng.choice(pool)), abs(rng.choice(pool))
+                ops.append({"op": "rank", "rows": rows, "sdt": "int64" if form == "list" else form,
+                            "fdt": rng.choice(FLOAT_DTYPES), "mdt": "float64", "aslist": form == "list",
+                            "kw": rng.random() < 0.3})
+            yield {"kind": kind, "seed": 1, "seedkind": "int", "via": "direct", "adt": "float64",
+                   "archive": "density" if kind == "density" else "grid", "ranges": [[0.0, 1.0], [-1.0, 1.0]],
+                   "dims": [2, 3], "sol_dim": 1, "batch_size": 2, "large": n, "ops": ops}
+
+
+# many resets of one ranker object -------------------------------------------------
+
+
+def gen_long(rng, emitter_every=4):
+    """> 512 resets of ONE random-direction ranker: every direction must be the next draw of the replayed
+    generator times the ranges (and no draw may ever come back) -- directly, with the archive argument of
+    reset() switched now and then, and through a real emitter that restarts on every tell()"""
+    kind = rng.choice(["rd", "2rd"])
+    case = base_case(rng, kind)
+    case["archive"] = "grid"
+    d = len(case["ranges"])
+    maybe_wide(rng, case, 0.3)
+    scales = case.get("scales")
+    if rng.randrange(emitter_every) == 0:
+        case["via"] = "emitter"
+        case["adt"] = "float64"
+        case["restart_rule"] = 1
+        case["batch_size"] = 2
+        case["ops"] = [{"op": "gens", "count": rng.randint(270, 330), "rows": gen_rows(rng, 2, d, False, True,
+                                                                                    scales=scales)}]
+        return case
+    case["seedkind"] = rng.choice(["int", "int", "seq", "none"])
+    case["ctor"] = rng.choice(["kw", "pos", "default"])
+    # archives of the same measure_dim with other ranges, and (early, at most once) one of another measure_dim
+    case["alts"] = [wide_ranges(rng, d) if rng.random() < 0.5 else
+                    [list(rng.choice(RANGES_POW2 + RANGES_ANY)) for _ in range(d)] for _ in range(2)]
+    ops = []
+    if rng.random() < 0.3:
+        d2 = d + 1 if d < 4 else d - 1
+        case["alts"].append([list(rng.choice(RANGES_POW2)) for _ in range(d2)])
+        ops.append({"op": "resets", "count": rng.randint(1, 5), "alt": 2})
+    left = rng.randint(540, 640)
+    switch = rng.random() < 0.5
+    while left > 0:
+        k = min(left, rng.choice([1, 7, 60, 200, 257, 300, 600]))
+        op = {"op": "resets", "count": k, "kw": rng.random() < 0.3}
+        if switch and rng.random() < 0.3:
+            op["alt"] = rng.randrange(2)
+        ops.append(op)
+        left -= k
+        if rng.random() < 0.5:
+            ops.append({"op": "rank", "rows": gen_rows(rng, rng.randint(1, 6), d, False, True, scales=scales),
+                        "sdt": rng.choice(INT_DTYPES), "fdt": "float64", "mdt": "float64"})
+    case["ops"] = ops
+    return case
+
+
 # exhaustive small combinations ------------------------------------------------
 
 COMBO_DIR = [1.0, 2.0]
@@ -1039,7 +1184,7 @@ def combo_case(kind, ops):
 
 def nontrivial(case):
     kind = case["kind"]
-    resets = sum(1 for op in case["ops"] if op["op"] == "reset")
+    resets = sum(op.get("count", 1) for op in case["ops"] if op["op"] in ("reset", "resets", "gens"))
     if resets >= 2:
         return True
     for op in case["ops"]:
@@ -1072,8 +1217,14 @@ def features(ctx, case):
                 ctx.count("rank-calls-keyword-or-list-form")
             if case.get("wide"):
                 ctx.count("rank-calls-on-wide-range-archives")
+            if case.get("large"):
+                ctx.count(f"large-batch:n={n}")
+                if case["kind"] in TWO:
+                    ctx.count("large-batch-two-stage-status:" + ("list" if op.get("aslist") else op["sdt"]))
         elif op["op"] in ("reset", "setdir", "addrank", "gen"):
             ctx.count(op["op"] + "-ops")
+        elif op["op"] in ("resets", "gens"):
+            ctx.count("resets-in-long-reset-histories", op["count"])
 
 
 def run(ctx):
@@ -1093,10 +1244,22 @@ def run(ctx):
     def nth_combo(rng):
         return dict(all_combos[index_of[rng.getrandbits(64)]])
 
+    all_large = list(large_cases(ctx.seed, ctx.quick))
+    large_index = {ctx.rng("large-batches", i).getrandbits(64): i for i in range(len(all_large))}
+    if len(large_index) != len(all_large):
+        raise Infra("large-batch index table collided")
+
+    def nth_large(rng):
+        return dict(all_large[large_index[rng.getrandbits(64)]])
+
     _STATS_DIR[0] = tempfile.mkdtemp(prefix="c17stats_")
     try:
         ctx.explore("combinations", nth_combo, run_case, len(all_combos), nontrivial=counted,
                     time_budget=8 if ctx.quick else 100)
+        ctx.explore("large-batches", nth_large, run_case, len(all_large), nontrivial=counted,
+                    time_budget=8 if ctx.quick else 60)
+        ctx.explore("long-resets", gen_long, run_case, ctx.n(8, 400), nontrivial=counted,
+                    time_budget=8 if ctx.quick else 60)
         ctx.explore("batches", gen_batches, run_case, ctx.n(1000, 120000), nontrivial=counted,
                     time_budget=10 if ctx.quick else 140)
         ctx.explore("direction", gen_direction, run_case, ctx.n(500, 50000), nontrivial=counted,
